@@ -120,7 +120,7 @@ def holds(a, cons):
     return True
 
 
-def compare_models(rng, nv, A, B):
+def compare_models(rng, nv, A, B, heavy=False):
     """None when no assignment separates the two constraint lists, else (assignment, holdsA, holdsB); second value: how
     the comparison was made"""
     size = sum(len(t) + 1 for t, _, _ in A) + sum(len(t) + 1 for t, _, _ in B)
@@ -131,23 +131,53 @@ def compare_models(rng, nv, A, B):
             if x != y:
                 return (a[1:], x, y), 'all assignments'
         return None, 'all assignments'
-    n = max(20, min(400, 3000000 // max(size, 1)))
-    for i in range(n):
-        a = [None] + ([bool(i & 1)] * nv if i < 2 else [rng.random() < 0.5 for _ in range(nv)])
-        # a short walk towards a model of A makes the comparison informative
-        for _ in range(3 if i >= 2 else 0):
-            bad = next((c for c in A if not holds(a, [c])), None)
-            if bad is None or not bad[0]:
-                break
-            _, l = rng.choice(bad[0])
+    # beyond enumeration: local search for models of either list (the walk stops as soon as the list is satisfied, so the
+    # models it finds satisfy it barely), each judged by the other list; plus uniformly random assignments
+    budget = [4000000 if heavy else 400000]
+
+    def value(a, c):
+        s_ = 0
+        for co, l in c[0]:
+            if a[l] if l > 0 else not a[-l]:
+                s_ += co
+        return s_
+
+    def ok1(a, c):
+        v = value(a, c)
+        return v >= c[2] if c[1] == '>=' else v == c[2]
+
+    def walk(X):
+        a = [None] + [rng.random() < 0.5 for _ in range(nv)]
+        for _ in range(4 * nv + 20):
+            budget[0] -= size
+            bad = [c for c in X if not ok1(a, c)]
+            if not bad:
+                return a
+            c = rng.choice(bad)
+            if not c[0]:
+                return None
+            v = value(a, c)
+            up = v < c[2]
+            # flip a literal of the constraint that moves its sum the right way
+            cand = [l for co, l in c[0] if ((a[l] if l > 0 else not a[-l]) != (co > 0)) == up] or [l for _, l in c[0]]
+            l = rng.choice(cand)
             a[abs(l)] = not a[abs(l)]
-        x, y = holds(a, A), holds(a, B)
-        if x != y:
-            return (a[1:], x, y), 'sampled assignments'
-    return None, 'sampled assignments'
+        return None
+
+    tried = 0
+    while budget[0] > 0 and tried < (300 if heavy else 40):
+        tried += 1
+        for X in (A, B):
+            a = walk(X) if tried % 4 else [None] + [rng.random() < 0.5 for _ in range(nv)]
+            if a is None:
+                continue
+            x, y = holds(a, A), holds(a, B)
+            if x != y:
+                return (a[1:], x, y), 'local search'
+    return None, 'local search and sampled assignments'
 
 
-def decide_property(rng, argv, rp, rc):
+def decide_property(rng, argv, rp, rc, heavy=False):
     """C08 on the real outputs of pbgen (rp) and cnfgen (rc) for one argv: (verdict, text)
     verdict: 'same' | 'differ' | 'undecided'"""
     if rp is None or rc is None or rp.get('timeout') or rc.get('timeout'):
@@ -169,7 +199,7 @@ def decide_property(rng, argv, rp, rc):
         return 'differ', 'the output of cnfgen is not readable: %s' % e
     if nvp != nvc:
         return 'differ', 'pbgen declares %d variables, cnfgen %d' % (nvp, nvc)
-    w, how = compare_models(rng, nvp, C_, P_)
+    w, how = compare_models(rng, nvp, C_, P_, heavy)
     if w is not None:
         return 'differ', 'the assignment %s %s the CNF and %s the pseudo-Boolean formula' % (
             [i + 1 if b else -(i + 1) for i, b in enumerate(w[0])][:40], 'satisfies' if w[1] else 'falsifies', 'satisfies' if w[2] else 'falsifies')
@@ -227,10 +257,10 @@ def run_pb_pipeline(ctx):
     t_start = time.time()
     cases = []          # dict(stream, argv, valid)
     # ---- valid commands of the common grammar
-    for _ in range(330 if quick else 3000):
+    for _ in range(250 if quick else 3000):
         c = P.gen_base(rng)
         cases.append(dict(stream='valid', valid=True, argv=P.render(rng, c)))
-    for _ in range(230 if quick else 2100):
+    for _ in range(170 if quick else 2100):
         c = P.gen_graph_base(rng)
         cases.append(dict(stream='valid-graph', valid=True, argv=P.render(rng, c)))
     for fl in P.PHP_FLAGS:
@@ -264,13 +294,13 @@ def run_pb_pipeline(ctx):
         argv, fmt = with_pb_format(rng, P.render(rng, c))
         cases.append(dict(stream='format', valid=fmt == 'opb', argv=argv))
     # ---- malformed
-    for i in range(420 if quick else 4000):
+    for i in range(320 if quick else 4000):
         c = P.gen_base(rng, small=True) if i % 3 else P.gen_graph_base(rng, small=True)
         c['chain'] = P.gen_chain(rng, maxlen=1) if rng.random() < 0.1 else []
         argv, kind = P.gen_malformed(rng, c)
         cases.append(dict(stream='malformed', valid=False, argv=argv, kind=kind))
     # ---- without -q: the header
-    for i in range(110 if quick else 1000):
+    for i in range(90 if quick else 1000):
         c = P.gen_base(rng, small=True) if i % 8 else P.gen_graph_base(rng, small=True)
         cases.append(dict(stream='verbose', valid=True, verbose=True, argv=P.render(rng, c, quiet=rng.choice([[], [], ['-v'], ['--verbose'], ['-v', '--verbose']]))))
     for b in rng.sample(P.BIG, 2):
@@ -295,7 +325,7 @@ def run_pb_pipeline(ctx):
         cs['agree'] = tool_agrees(cs['model'], cs['real'])
     pool = [cs for cs in claimed if cs['agree'] and cs['model'][0] == 'out' and common_grammar(cs['argv']) and len(cs['model'][1]) < 60000]
     rng.shuffle(pool)
-    sample = pool[:170 if quick else 1700]
+    sample = pool[:130 if quick else 1700]
     second = [cs for cs in claimed if not cs['agree']] + sample
     t0 = time.time()
     for cs, r in zip(second, run_tool('cnfgen', [cs['argv'] for cs in second])):
@@ -348,7 +378,7 @@ def run_pb_pipeline(ctx):
             ctx.violation('counterexample', 'pbgen ends in a Python traceback (%s)' % r['err'].strip().split('\n')[-1][:120], replay, True, site=site, cls=cl)
             continue
         if common_grammar(argv):
-            verdict, text = decide_property(rng, argv, r, rc_)
+            verdict, text = decide_property(rng, argv, r, rc_, heavy=True)
             if verdict == 'differ':
                 ctx.violation('counterexample', 'pbgen and cnfgen on the same arguments: ' + text, replay, True, site=site, cls=cl)
                 continue
